@@ -32,6 +32,23 @@ def _cell(bid, dbl, vn, decl, tricks, stats=None):
     check(got == exp and type(got) is int, 'calc_score != duplicate table', case, {'got': got, 'expected': exp})
     got2 = guard('calc_bid_score raises', case, calc_bid_score, be.BID[bid], dbl >= 1, dbl == 2, sv, tricks)
     check(got2 == exp, 'calc_bid_score != duplicate table', case, {'got': got2, 'expected': exp})
+    if (bid + tricks + decl) % 7 == 0:
+        # the same contract reached in other ways a caller may use: derived with dataclasses.replace from a contract of the
+        # other side / another vulnerability, copied, pickled, and passed by keyword
+        import copy as _copy
+        import dataclasses as _dc
+        import pickle as _pickle
+        other = be.contract_of(bid, dbl, be.VUL_NAMES[(be.VUL_NAMES.index(vn) + 1) % 4], (decl + 1) % 4)
+        variants = {'copy.copy': lambda: _copy.copy(c), 'copy.deepcopy': lambda: _copy.deepcopy(c),
+                    'pickle round trip': lambda: _pickle.loads(_pickle.dumps(c))}
+        if _dc.is_dataclass(c):
+            variants['dataclasses.replace from the other side'] = lambda: _dc.replace(other, vul=be.VUL[vn], declarer=be.SEAT[decl])
+        for how, make in variants.items():
+            cv = guard(f'contract via {how} raises', case, make)
+            gv = guard(f'calc_score raises on a contract obtained via {how}', case, calc_score, cv, tricks)
+            check(gv == exp, f'calc_score of a contract obtained via {how} != duplicate table', case, {'got': gv, 'expected': exp})
+        gk = guard('calc_score raises when called with keyword arguments', case, lambda: calc_score(contract=c, taken_tricks=tricks))
+        check(gk == exp, 'calc_score(contract=..., taken_tricks=...) != duplicate table', case, {'got': gk, 'expected': exp})
     if dbl == 2:
         # a redoubled contract may also be represented with x=False, xx=True
         from bridge_env import Contract
